@@ -708,11 +708,26 @@ Print Assumptions C04_blocks_balanced.
 
 
 
-(* non-vacuity and agreement with computation on the document of FragB.v *)
-Require FragB.
+(* non-vacuity and agreement with computation on a concrete document *)
+Definition ex_src := runes "a & b
+.Bd
+.Bm
+c <d>
+.Bd -id x
+nested
+.Em !
+.P
+new paragraph
+.Sm strong <t> .
+.Ed
+e
+.Bm
+left open
+".
+Definition ex_world := mkWorld [] [(R "m.frundis", ex_src)] [] false [].
 Example blocksL_example :
-  Forall in_frag (fst (parse FragB.ex_src)) /\
-  (let s := compile_source (R "latex") 0 FragB.ex_world (R "m.frundis") in
+  Forall in_frag (fst (parse ex_src)) /\
+  (let s := compile_source (R "latex") 0 ex_world (R "m.frundis") in
    panicked s = None /\ flat (wout s) = runes "a \& b
 
 \emph{c <d>}
